@@ -181,10 +181,21 @@ func (w *world) batchOracle1() string {
 	return ""
 }
 
-func callItems(cs []callObs) [][]int {
+func callItems(cs []callObs) interface{} {
 	var out [][]int
+	big := false
 	for _, c := range cs {
 		out = append(out, c.items)
+		if len(c.items) > 20 {
+			big = true
+		}
+	}
+	if big {
+		var sizes []string
+		for _, c := range cs {
+			sizes = append(sizes, fmt.Sprintf("%d items", len(c.items)))
+		}
+		return sizes
 	}
 	return out
 }
